@@ -1,7 +1,7 @@
 (* C20 — Unassigned opcodes are soft-fork-safe no-ops (instruction level). *)
 From Coq Require Import ZArith List.
 From Coq.Strings Require Import Byte.
-From TS Require Import Bytes State Prog Ops Interp NopSpec TablesCheck Tables.
+From TS Require Import Bytes State Prog Ops Interp NopSpec TablesCheck Tables SoftFork SoftForkProofs.
 Import ListNotations.
 Local Open Scope nat_scope.
 
@@ -33,6 +33,58 @@ Proof. exact nop_truncated. Qed.
 Example C20_signed_count : signed8 xc8 = (-56)%Z /\ signed8 x7f = 127%Z /\ signed8 x80 = (-128)%Z.
 Proof. vm_compute. repeat split; reflexivity. Qed.
 
+(* ---- soft-fork compatibility of the whole interpreter (model/SoftFork.v) ----
+   The upgraded VM gives one unassigned code [fcode] a new meaning with NOP's operand and pops, after which it
+   may raise depending on the removed items (a raise is marked in the log).  For every oracle, configuration,
+   predicate, fuel, script list and cache: *)
+
+(* the forked op either behaves exactly like NOP, or raises (and marks the log) *)
+Theorem C20_fork_op_is_nop_or_raises :
+  forall orc cfg fcode pred run fr st,
+  interp orc cfg run (fork_op fcode pred) fr st = interp orc cfg run NOP fr st \/
+  exists e fr' st', interp orc cfg run (fork_op fcode pred) fr st = Raised e fr' st' /\ tainted st'.
+Proof. intros. apply fork_op_sim. Qed.
+
+(* the two VMs produce the same outcome (same stack, cache, heap, pointer) unless the fork op raised *)
+Theorem C20_soft_fork_simulation :
+  forall orc cfg fcode pred, opcode_of_nat fcode = None ->
+  forall fuel tid ptr st,
+  sim (run_tape_f orc cfg fcode pred fuel tid ptr st) (run_tape orc cfg fuel tid ptr st).
+Proof. intros. apply run_tape_sim. assumption. Qed.
+
+(* whatever the upgraded VM authorises without the fork op ever having raised (so in particular with no
+   raise of it swallowed by a TRY), the old VM authorises too, with the same final state *)
+Theorem C20_soft_fork_auth :
+  forall orc cfg fcode pred, opcode_of_nat fcode = None ->
+  forall fuel scripts vals st,
+  run_auth_scripts_f orc cfg fcode pred fuel scripts vals = AuthVerdict true st ->
+  ~ tainted st ->
+  run_auth_scripts orc cfg fuel scripts vals = AuthVerdict true st.
+Proof. intros. eapply soft_fork_auth; eassumption. Qed.
+
+Theorem C20_soft_fork_run_script :
+  forall orc cfg fcode pred, opcode_of_nat fcode = None ->
+  forall fuel script vals fr st,
+  run_script_f orc cfg fcode pred fuel script vals = Done tt fr st -> ~ tainted st ->
+  run_script orc cfg fuel script vals = Done tt fr st.
+Proof. intros. eapply soft_fork_run_script; eassumption. Qed.
+
+(* a raise of the fork op stays visible to the end of the upgraded run, whatever TRY blocks do with it *)
+Theorem C20_fork_raise_is_never_forgotten :
+  forall orc cfg fcode pred fuel tid ptr st, tainted st ->
+  match run_tape_f orc cfg fcode pred fuel tid ptr st with Done _ _ s | Raised _ _ s => tainted s | _ => True end.
+Proof. intros. apply taint_is_final. assumption. Qed.
+
+(* the TRY caveat of the property is real: wrapped in a TRY the two VMs end differently (code 200, model run) *)
+Example C20_try_wrapped_fork_diverges :
+  Ex.stack_of (Ex.rf 100 Ex.s_try []) = Some [[xff]] /\ Ex.stack_of (Ex.rb 100 Ex.s_try []) = Some [[xff]; [xff]].
+Proof. vm_compute. split; reflexivity. Qed.
+
+Print Assumptions C20_fork_op_is_nop_or_raises.
+Print Assumptions C20_soft_fork_simulation.
+Print Assumptions C20_soft_fork_auth.
+Print Assumptions C20_soft_fork_run_script.
+Print Assumptions C20_fork_raise_is_never_forgotten.
 Print Assumptions C20_unassigned_codes_run_NOP.
 Print Assumptions C20_nop_exact.
 Print Assumptions C20_nop_truncated.
